@@ -75,6 +75,21 @@ chk("C13",
     "TLA+ spec + TLC enumeration/simulation; spec->impl replay in-process and through the diplomat-tool binary",
     "DESIGN.md §5 C13")
 
+chk("C04",
+    "spec/life/Lifetimes.tla defines, for every method signature over named lifetimes with arbitrary declared bounds, the "
+    "outlives relation (declared + `&'x T<'y>` + definition-site bounds of used types incl. Self, transitively closed), the set "
+    "MustKeep(r) of parameters a returned value of lifetime r may borrow from, the expected edge list per output lifetime, and "
+    "which signatures must be rejected because an implied bound is not spelled out. A GC heap machine (Call with any body Rust's "
+    "typing allows, DropRoot, DropRet, GC) is model-checked for NoUseAfterFree with Edges = MustKeep on every accepted "
+    "signature; removing one required edge must be refuted (minimality). Every TLC-enumerated signature (59k for 2 lifetimes / 1 "
+    "parameter; thorough adds 2-parameter and 3-lifetime families) is rendered and run through the real lowering and "
+    "Method::borrowing_param_visitor: verdicts and edge lists must match exactly. For a seeded sample the real js, dart, kotlin "
+    "and nanobind backends are run and their emitted edge arrays / keep_alive policies must contain MustKeep.",
+    "Parameters whose only qualifying lifetime is 'static are don't-care. Returned &str is copied by kotlin/nanobind (exempt "
+    "from the emission leg). Backend emission is parsed from generated text; JS/Dart/Kotlin/Python are not executed here.",
+    "TLA+ spec + TLC model checking of a GC machine; spec->impl replay of every generated signature through the real analysis",
+    "DESIGN.md §5 C04")
+
 NOT_YET = {}
 
 
